@@ -34,6 +34,7 @@ type Dog implements Animal {
   owner: Person
   bark: Int
   friends: [Animal!]
+  mate: Dog
 }
 
 type Cat implements Animal {
@@ -56,6 +57,7 @@ type Person {
   pets: [Pet!]
   best: Animal
   address: Address
+  boss: Person
 }
 
 union Pet = Dog | Cat
@@ -73,13 +75,17 @@ type Query {
 
 LEAVES = {"Animal": ["id", "name", "kind"], "Dog": ["id", "name", "kind", "bark"], "Cat": ["id", "name", "kind", "lives"],
           "Person": ["id", "name", "age"], "Address": ["city", "zip"]}
-COMPOSITE = {"Animal": [("owner", "Person")], "Dog": [("owner", "Person"), ("friends", "Animal")],
-             "Cat": [("owner", "Person")], "Person": [("pets", "Pet"), ("best", "Animal"), ("address", "Address")],
+COMPOSITE = {"Animal": [("owner", "Person")], "Dog": [("owner", "Person"), ("friends", "Animal"), ("mate", "Dog")],
+             "Cat": [("owner", "Person")],
+             "Person": [("pets", "Pet"), ("best", "Animal"), ("address", "Address"), ("boss", "Person")],
              "Address": [], "Pet": []}
 ROOTS = [("animal", "Animal"), ("animals", "Animal"), ("dog", "Dog"), ("cat", "Cat"), ("pet", "Pet"),
          ("person", "Person"), ("people", "Person")]
 IMPLS = {"Animal": ["Dog", "Cat"], "Pet": ["Dog", "Cat"]}
-SHAPES = ["chain", "diamond", "shared", "iface", "union", "inline", "unused", "mixed", "conditional"]
+SHAPES = ["chain", "diamond", "shared", "iface", "union", "inline", "unused", "mixed", "conditional", "nested_mention"]
+# fragment names are written in every case style: the generator keys its dictionaries by the WRITTEN name and
+# PascalCases it for the class, so the two must never be confused
+NAME_STYLES = ["Pascal", "lowerCamel", "snake_case", "UPPER", "digits_underscores", "case_twin"]
 
 MIXINS_PY = "".join(f"class Mixin{c}:\n    def mixin_{c.lower()}(self):\n        return '{c}'\n\n\n" for c in "ABC")
 
@@ -92,6 +98,9 @@ class FragGen:
         self.n_mixin_dirs = 0
         self.n_conds = 0
         self.in_fragment = False
+        k = seed // 1000
+        self.style = (NAME_STYLES + ["mixed_styles"])[(k // len(SHAPES) + k) % (len(NAME_STYLES) + 1)]
+        self.styles_used = set()
         self.uses_var = False
 
     def cond(self, in_fragment=False) -> str:
@@ -117,8 +126,24 @@ class FragGen:
 
     def frag_name(self, t):
         # random leading letter: alphabetical order (the order the generator visits fragments in) must be
-        # unrelated to the dependency order, otherwise the set-iteration order never matters
-        return f"{self.r.choice('ABMXZ')}{t}F{len(self.frags)}"
+        # unrelated to the dependency order; the style decides how written name and class name differ
+        n = len(self.frags)
+        lead = self.r.choice("abmxz")
+        style = self.style if self.style != "mixed_styles" else self.r.choice(NAME_STYLES[:5])
+        if style == "Pascal":
+            name = f"{lead.upper()}{t}F{n}"
+        elif style == "lowerCamel":
+            name = f"{lead}{t}Details{n}"
+        elif style == "snake_case":
+            name = f"{lead}_{t.lower()}_frag_{n}"
+        elif style == "UPPER":
+            name = f"{lead.upper()}_{t.upper()}_F{n}"
+        elif style == "digits_underscores":
+            name = f"{lead}{n}_{t}__x{n}"
+        else:  # case_twin: names that differ from an earlier one only in the case of interior letters
+            name = f"{lead}{t.lower()}frag{n}" if n % 2 == 0 else f"{lead}{t.lower()}Frag{n}"
+        self.styles_used.add(style)
+        return name
 
     def new_fragment(self, t, body_parts, directive="") -> str:
         name = self.frag_name(t)
@@ -229,6 +254,20 @@ class FragGen:
                 ops.pop()
                 op("UsesNone", r.choice(root_of[T]), self.leaves(T, 1, 2))
             _ = u1
+        elif shape == "nested_mention":
+            # sibling fragments on a recursive type that mention each other only BELOW a nested field (or only
+            # conditionally): neither inherits the other, both must stay bases of a class spreading both
+            TT = r.choice(["Dog", "Person"])
+            rec = "mate" if TT == "Dog" else "boss"
+            b = self.new_fragment(TT, self.leaves(TT, 1, 2), self.mixin(0.2))
+            a = self.new_fragment(TT, self.leaves(TT, 1, 1) + [f"{rec} {{ ...{b} }}"])
+            c = self.new_fragment(TT, self.leaves(TT, 1, 1) + ["..." + b + self.cond(True)])
+            d = self.new_fragment(TT, [f"{rec} {{ {rec} {{ ...{a} }} id }}"])
+            op("Siblings", r.choice(root_of[TT]), ["..." + a, "..." + b])
+            op("CondSibling", r.choice(root_of[TT]), ["..." + c, "..." + b])
+            op("DeepSiblings", r.choice(root_of[TT]), ["..." + d, "..." + a, "..." + b] if r.random() < 0.6 else ["..." + d, "..." + b])
+            if r.random() < 0.5:
+                op("NestedOnly", r.choice(root_of[TT]), ["id", f"{rec} {{ ...{a} ...{b} }}"])
         elif shape == "conditional":
             # spreads under @skip/@include: on the spread itself, on an enclosing inline fragment, inside a
             # fragment that is itself spread conditionally (nested), next to unconditional spreads of the same
@@ -287,7 +326,8 @@ def make(seed: int, tries: int = 40) -> Scenario:
         return Scenario(seed=seed, sdl=SDL, queries="\n\n".join(defs) + "\n", config=cfg, features=("frags",),
                         files={"mixins_impl.py": MIXINS_PY},
                         notes={"shape": shape, "n_frags": len(g.frags), "n_defs": len(defs), "defs": defs,
-                               "mixin_directives": g.n_mixin_dirs, "conditions": g.n_conds, "subseed": k})
+                               "mixin_directives": g.n_mixin_dirs, "conditions": g.n_conds, "subseed": k,
+                               "name_style": g.style})
     raise RuntimeError(f"no valid fragment scenario for seed {seed}: {last}")
 
 
